@@ -12,6 +12,9 @@
   OBLIGATION c12_upload_violated_by_valueIndex
   OBLIGATION c12_depth_guard
   OBLIGATION c12_depth_guard_needed
+  OBLIGATION c12_unbounded_nesting
+  OBLIGATION c12_unbounded_nesting_slope
+  OBLIGATION c12_spread_violated_by_spreadsExpanded
   OPEN c12_unbounded_nesting_document
 -/
 import AGV.Lemmas.Hostile
@@ -70,6 +73,33 @@ theorem c12_depth_guard (f : Nat) (p : Pair) :
 theorem c12_depth_guard_needed (n : Nat) :
     selRecursion false (n + 1) maxDepth (selNest n) = n + 1 :=
   selRecursion_selNest n (n + 1) maxDepth (Nat.le_refl _)
+
+/-- WITNESS FAMILY (the modelled half of the stack-overflow finding).  The pest-compiled parser's
+    recursive descent on a value nested `n` lists deep — `[`ⁿ `]`ⁿ followed by anything — is cut
+    off at every depth `≤ 12·n`: each bracket costs twelve nested activations (rule `value`, its
+    seven ordered alternatives down to `list`, rule `list`, two sequences, the repetition), and no
+    constant bounds the depth. Stated for the real grammar (`Gen/Grammar.lean`). -/
+theorem c12_unbounded_nesting (n : Nat) (rest : List Char) (p : Nat) (c : AGV.Model.Peg.Ctx) (f : Nat)
+    (hf : f ≤ 12 * n) :
+    eval grammar f c (.ident "value") p (nestList n ++ rest) = .oof :=
+  value_nest_oof n f c p rest hf
+
+/-- …and the bound is tight in its slope on the whole witness document: the least depth at which
+    `{j(x:[ⁿ]ⁿ)}` is parsed from `executable_document` grows by exactly 12 per bracket
+    (evaluated instances; the general document-level statement is OPEN below). -/
+theorem c12_unbounded_nesting_slope :
+    depthFrom "executable_document" (listDoc 1) 0 200 + 12 = depthFrom "executable_document" (listDoc 2) 0 200 ∧
+    depthFrom "executable_document" (listDoc 2) 0 200 + 12 = depthFrom "executable_document" (listDoc 3) 0 200 := by
+  decide
+
+-- ------------------------------------------------------------------ (c) fragment expansion
+
+/-- pinned: every spread is followed — six fragments that spread the next one four times cost
+    1365 visits of `check_recursive_depth` for 6 distinct fragments (4^(n-1) growth) -/
+theorem c12_spread_violated_by_spreadsExpanded :
+    spreadVisits (bomb 4 6) 32 40 0 0 = some 1365 ∧ distinctVisits (bomb 4 6) = 6 ∧
+    spreadVisits (bomb 4 7) 32 40 0 0 = some 5461 := by
+  decide
 
 -- ------------------------------------------------------------------ open
 
